@@ -19,12 +19,24 @@ def main():
     for e in regen_tables():
         log("translator error:", e); ok = False
     coq_prepare()
-    rc, out, dt = coq_make(["all"], timeout=3400)
-    log(f"coq build rc={rc} in {dt:.0f}s")
+    # build what the REGISTERED checks need: their Props files and every extraction file (a broken file of a check that is
+    # not registered yet must not break setup)
+    import json as _json
+    registered = [c["property_id"] for c in _json.load(open(os.path.join(VERIF, "MANIFEST.json")))["checks"]]
+    props = [f"theories/Props/{pid}.vo" for pid in registered if os.path.exists(os.path.join(COQ, "theories", "Props", pid + ".v"))]
+    extr = sorted("theories/Extract/" + f[:-2] + ".vo" for f in os.listdir(os.path.join(COQ, "theories", "Extract")) if f.endswith(".v"))
+    rc, out, dt = coq_make(props, timeout=3400)
+    log(f"coq build of {len(props)} Props targets rc={rc} in {dt:.0f}s")
     if rc != 0:
         log(out[-4000:]); ok = False
+    rc2, out2, dt2 = coq_make(extr, timeout=1800)
+    log(f"coq build of extraction targets rc={rc2} in {dt2:.0f}s")
+    if rc2 != 0:
+        log(out2[-2000:])
     ocaml, harness = {}, {}
     for name, m in check_modules():
+        if name not in registered:
+            continue
         for o in getattr(m, "OCAML", []):
             ocaml[o[0]] = o
         for crate, bins, hooks in getattr(m, "HARNESS", []):
